@@ -51,8 +51,9 @@ func (c06) Budget(tier string) int {
 // catalogues (discovered, not listed)
 
 type mutatorDef struct {
-	Name string
-	Def  string
+	Name  string
+	Def   string
+	Group string // method / syntactic form / Go method: variants of one group differ in argument shape
 	Type string // list, dict, set
 }
 
@@ -108,7 +109,12 @@ func evalQuiet(src string, env starlark.StringDict) (v starlark.Value, err error
 func discoverCatalogues() {
 	mutators = map[string][]mutatorDef{}
 	samples := map[string]string{"list": "[1, 2, 3]", "dict": "{\"a\": 1, \"b\": 2}", "set": "set([1, 2, 3])"}
-	argPool := []string{"", "7", "0, 7", "[8, 9]", "\"a\"", "\"zz\", 5", "{\"zz\": 3}", "[(\"zz\", 4)]", "1", "set([1, 42])", "0", "[1]", "zz=9"}
+	// argument shapes: every shape that makes the method change the sample
+	// becomes a mutator of its own (a fast path chosen by argument type —
+	// another set, a dict, a tuple, a range, the receiver itself — must be
+	// covered as well as the common list form)
+	argPool := []string{"", "7", "0, 7", "[8, 9]", "\"a\"", "\"zz\", 5", "{\"zz\": 3}", "[(\"zz\", 4)]", "1", "set([1, 42])", "0", "[1]", "zz=9",
+		"(8, 9)", "range(40, 43)", "set([41, 42]), [43]", "{\"zz\": 3}, yy=4", "((\"zz\", 4),)", "{\"zz\": 3}.items()", "[8], [9]", "c", "list(c) + [50]", "-1", "1, 99", "-1, 99", "\"b\", 9", "\"b\"", "2", "3"}
 	for _, typ := range []string{"list", "dict", "set"} {
 		fresh := func() starlark.Value { v, _ := evalQuiet(samples[typ], nil); return v }
 		names := fresh().(starlark.HasAttrs).AttrNames()
@@ -120,12 +126,12 @@ func discoverCatalogues() {
 				_, err := evalQuiet(fmt.Sprintf("c.%s(%s)", name, args), starlark.StringDict{"c": c})
 				if err == nil && Canon(c) != before {
 					mutators[typ] = append(mutators[typ], mutatorDef{
-						Name: fmt.Sprintf("m_%s_%s_%d", typ, name, ai),
+						Name: fmt.Sprintf("m_%s_%s_%d", typ, name, ai), Group: name,
 						Def:  fmt.Sprintf("def m_%s_%s_%d(c):\n    c.%s(%s)\n", typ, name, ai, name, args),
 						Type: typ,
 					})
 					found++
-					if found == 2 {
+					if found == 9 {
 						break
 					}
 				}
@@ -142,11 +148,11 @@ func discoverCatalogues() {
 			syn = []string{"c |= set([99])"}
 		}
 		for i, s := range syn {
-			mutators[typ] = append(mutators[typ], mutatorDef{Name: fmt.Sprintf("m_%s_syn%d", typ, i), Def: fmt.Sprintf("def m_%s_syn%d(c):\n    %s\n", typ, i, s), Type: typ})
+			mutators[typ] = append(mutators[typ], mutatorDef{Name: fmt.Sprintf("m_%s_syn%d", typ, i), Group: fmt.Sprintf("syn%d", i), Def: fmt.Sprintf("def m_%s_syn%d(c):\n    %s\n", typ, i, s), Type: typ})
 		}
 		// Go API
 		for i, op := range GoMutators(fresh()) {
-			mutators[typ] = append(mutators[typ], mutatorDef{Name: fmt.Sprintf("m_%s_go%d", typ, i), Def: fmt.Sprintf("def m_%s_go%d(c):\n    gomutate(c, %q, \"a\", 5)\n", typ, i, op), Type: typ})
+			mutators[typ] = append(mutators[typ], mutatorDef{Name: fmt.Sprintf("m_%s_go%d", typ, i), Group: "go:" + op, Def: fmt.Sprintf("def m_%s_go%d(c):\n    gomutate(c, %q, \"a\", 5)\n", typ, i, op), Type: typ})
 		}
 	}
 	// iterating built-ins and methods
@@ -346,8 +352,31 @@ func (g *c06gen) addDef(name, def string) {
 }
 
 func (g *c06gen) mut(c c06coll) string {
-	ms := mutators[c.typ]
-	return g.need(ms[g.r.Intn(len(ms))])
+	return g.need(pickMutator(g.r, c.typ))
+}
+
+// mutatorGroups lists the groups of a type's catalogue in first-seen order.
+func mutatorGroups(typ string) [][]mutatorDef {
+	var order []string
+	by := map[string][]mutatorDef{}
+	for _, m := range mutators[typ] {
+		if _, ok := by[m.Group]; !ok {
+			order = append(order, m.Group)
+		}
+		by[m.Group] = append(by[m.Group], m)
+	}
+	out := make([][]mutatorDef, 0, len(order))
+	for _, k := range order {
+		out = append(out, by[k])
+	}
+	return out
+}
+
+// pickMutator draws a group uniformly, then an argument-shape variant.
+func pickMutator(r *Rng, typ string) mutatorDef {
+	gs := mutatorGroups(typ)
+	g := gs[r.Intn(len(gs))]
+	return g[r.Intn(len(g))]
 }
 
 func (g *c06gen) emit(ind int, format string, args ...any) {
